@@ -86,6 +86,9 @@ func (s *state) matchHolds(m *networking.HTTPMatchRequest, r request) bool {
 	}
 	for n, sm := range m.WithoutHeaders {
 		v, ok := r.header(n)
+		if !ok && s.f1Variant && !presenceOnly(sm) {
+			v, ok = "", true // classification only: what the generated matcher does (F-C12-1)
+		}
 		if ok && smHolds(sm, v) {
 			return false
 		}
@@ -214,22 +217,53 @@ func (s *state) vsSpec(r request) (string, *networking.HTTPRoute) {
 	return "404", nil
 }
 
-// classify names the input class of a disagreement (stable fingerprint component).
+// classify names the input class of a disagreement (stable fingerprint component).  A known-finding
+// class is returned only when it EXPLAINS the disagreement: the spec is recomputed with exactly the
+// deviation of that finding and must then equal what the real routes did.  Everything else is `decision`.
 func (s *state) classify(r request, got decision, rule *networking.HTTPRoute) string {
-	if got.kind == "invalid" {
-		return "redirect-code-unsupported"
-	}
-	// withoutHeaders entry whose header is absent and whose pattern accepts the empty string
-	for _, h := range s.vs.Http {
-		for _, m := range h.Match {
-			for n, sm := range m.WithoutHeaders {
-				if _, ok := r.header(n); !ok && !presenceOnly(sm) && smHolds(sm, "") {
-					return "withoutHeaders-pattern-accepts-empty-and-header-absent"
-				}
-			}
+	if got.kind == "invalid" && rule != nil && rule.Redirect != nil {
+		switch rule.Redirect.RedirectCode {
+		case 0, 301, 302, 303, 307, 308:
+		default:
+			return "redirect-code-unsupported"
 		}
 	}
+	// F-C12-1: withoutHeaders entries treat an absent header as the empty string
+	s.f1Variant = true
+	alt, _ := s.vsSpec(r)
+	s.f1Variant = false
+	if alt == showDecision(got) {
+		return "withoutHeaders-pattern-accepts-empty-and-header-absent"
+	}
 	return "decision"
+}
+
+// verdicts collects, per case, the first failure of every distinct clause (so that a known finding
+// cannot hide a different violation in the same case).
+type verdicts struct {
+	order []string
+	msg   map[string]string
+}
+
+func (v *verdicts) fail(clause, detail string) {
+	if v.msg == nil {
+		v.msg = map[string]string{}
+	}
+	if _, ok := v.msg[clause]; !ok {
+		v.order = append(v.order, clause)
+		v.msg[clause] = detail
+	}
+}
+
+func (v *verdicts) line() string {
+	if len(v.order) == 0 {
+		return "OK"
+	}
+	out := make([]string, len(v.order))
+	for i, c := range v.order {
+		out[i] = "FAIL " + c + " " + v.msg[c]
+	}
+	return strings.Join(out, " ;; ")
 }
 
 // sortSafe: the side condition of sortVHost_sound for one request - no non-catch-all route placed
